@@ -4,12 +4,34 @@ base.list + props/<cNN>/overlay.list (same format). Test files of overlaid harmo
 import json, os, sys
 ENG = os.path.dirname(os.path.abspath(__file__))
 REPO = os.environ.get("VERIF_REPO", "/repo")
+def maporder(rep):
+    """GOROOT overlay that lets the harness own map-iteration order (see lib/maporder)."""
+    import subprocess
+    goroot = subprocess.run(["go", "env", "GOROOT"], capture_output=True, text=True).stdout.strip()
+    srcp = os.path.join(goroot, "src", "runtime", "map.go")
+    s = open(srcp).read()
+    a = "\tr := uintptr(rand())\n\tit.startBucket = r & bucketMask(h.B)"
+    if s.count(a) != 1:
+        sys.stderr.write("mkoverlay: runtime/map.go does not have the expected mapiterinit shape\n")
+        sys.exit(3)
+    s = s.replace(a, "\tr := uintptr(rand())\n\tif vr, ok := verifMapIterRand(h); ok {\n\t\tr = vr\n\t}\n\tit.startBucket = r & bucketMask(h.B)")
+    out = os.path.join(os.path.dirname(ENG), ".build", "goroot")
+    os.makedirs(out, exist_ok=True)
+    dst = os.path.join(out, "map.go")
+    if not os.path.exists(dst) or open(dst).read() != s:
+        open(dst, "w").write(s)
+    rep[srcp] = dst
+    rep[os.path.join(goroot, "src", "runtime", "zz_verif_map.go")] = os.path.join(ENG, "overlay", "goroot", "zz_verif_map.go")
+
 def load(p, rep):
     if not os.path.exists(p):
         return
     for ln in open(p):
         ln = ln.rstrip("\n")
         if not ln.strip() or ln.startswith("#"):
+            continue
+        if ln.strip() == "@maporder":
+            maporder(rep)
             continue
         parts = ln.split("\t")
         tgt = parts[0].strip()
